@@ -44,11 +44,15 @@ import (
 	"verifharness/hc"
 )
 
-// pendingCases: generator cases for defects of the unchanged tree that are reported but neither repaired nor
-// recorded yet are switched on by VERIF_C02_PENDING=1 only.  None at present: the colour escapes in JSON files
-// (F102, cc560dc) and the prefix path after the longer path (F103, 868dfbb) are repaired in /repo, so both
-// case families run in every check; VERIF_C02_PENDING=0 switches them off (to look at an older tree).
+// pendingCases / pendingFixedAuto: generator cases for defects of the unchanged tree that are reported but neither
+// repaired nor recorded yet are switched on by VERIF_C02_PENDING=1 only.  None at present: the colour escapes in JSON
+// files (F102, cc560dc), the prefix path after the longer path (F103, 868dfbb) and the detected positions of a
+// fixed-length file becoming its explicit ones (F112, 6d60636: UPDATE + COMMIT rewrote a file read with AUTOMATIC
+// positions without the blank between the columns, and refused a value longer than the detected column) are repaired
+// in /repo, so all three case families run in every check; VERIF_C02_PENDING=0 switches them off (to look at an older
+// tree).
 var pendingCases = os.Getenv("VERIF_C02_PENDING") != "0"
+var pendingFixedAuto = os.Getenv("VERIF_C02_PENDING") != "0"
 
 // ---------- the attribute vocabulary ----------
 
